@@ -96,10 +96,17 @@ def check_formula(pre, goal, timeout_ms=10000, use_cvc5=True):
     s.set("timeout", timeout_ms)
     s.add(*[p for p in pre if not isinstance(p, bool)])
     if any(p is False for p in pre):
-        return Verdict("proved", "vacuous-pre", None, 0.0, "precondition is literally False")
+        # a contradictory precondition proves nothing: never counted as a proof
+        return Verdict("unknown", "vacuous-pre", None, 0.0, "precondition is literally False: the obligation is vacuous")
+    s.push()
     s.add(z3.Not(goal) if not isinstance(goal, bool) else z3.BoolVal(not goal))
     r = s.check()
     if r == z3.unsat:
+        # vacuity guard: the premises alone (axioms, side conditions, preconditions) must be satisfiable
+        s.pop()
+        s.set("timeout", min(timeout_ms, 5000))
+        if s.check() == z3.unsat:
+            return Verdict("unknown", "vacuous-pre", None, time.time() - t0, "the premises are unsatisfiable: the obligation is vacuous")
         return Verdict("proved", "z3", None, time.time() - t0)
     if r == z3.sat:
         return Verdict("refuted", "z3", model_to_dict(s.model()), time.time() - t0)
